@@ -16,6 +16,9 @@ def del_hints(s):
     return s.replace("\t", "").replace("\f", "")
 
 
+STRICT = [False]
+
+
 def spec_check(line, spaces, indent, linelen, cont, out):
     if not out:
         return "nothing written"
@@ -59,6 +62,8 @@ def spec_check(line, spaces, indent, linelen, cont, out):
                 k += 1
                 ks.append(k)
         for k in ks:
+            if j > 0 and STRICT[0] and not any(pos <= a <= pos + k for a in allowed):
+                continue      # only alignments whose breaks sit at break hints (P3) are looked for first
             if src.startswith(b, pos + k):
                 # a break happened at offset `pos` (before line j, j > 0)
                 rest = match(j + 1, pos + k + len(b))
@@ -66,7 +71,13 @@ def spec_check(line, spaces, indent, linelen, cont, out):
                     return [(pos, pos + k)] + rest
         # trailing whitespace-only part dropped at the very end after a break
         return None
+    # the alignment of the emitted bodies with the logical line is not unique when whitespace was dropped: an alignment
+    # in which every break sits at a hint is preferred; only if none exists the unconstrained one is used (and then P3 fails)
+    STRICT[0] = True
     m = match(0, 0)
+    if m is None:
+        STRICT[0] = False
+        m = match(0, 0)
     if m is None:
         # allow whitespace dropped at the end (a blank part after the last break)
         stripped = src.rstrip()
@@ -77,6 +88,12 @@ def spec_check(line, spaces, indent, linelen, cont, out):
                 m = "tail"
         if m is None:
             return "P1 text not preserved: src=%r bodies=%r" % (src, [b for _, b in bodies])
+    import re as _re
+    ambiguous = any(seg and not seg.strip() for seg in _re.split(r'[\t\f]', body))
+    if ambiguous:
+        # a part that is only whitespace: it is dropped after a break or emitted as a blank continuation line, and the
+        # bodies can then be aligned with the logical line in several ways -- only P1 (text), P2, P5 are judged here
+        return None
     if m != "tail":
         breaks = [p for (p, q) in m[1:]]
         ends = [q for (p, q) in m[1:]]
@@ -89,9 +106,18 @@ def spec_check(line, spaces, indent, linelen, cont, out):
                 return "form feed at offset %d did not force a break" % f
     # P4 length
     pos = 0
+    starts = None
+    if m != "tail":
+        # where each emitted body starts in the logical line: from the alignment found above (first line at 0, line j
+        # after the j-th break)
+        starts = [q for (p_, q) in m]
     for j, (ind, b) in enumerate(bodies):
-        if len(ind) + len(b) > linelen:
-            start = src.find(b, pos) if b else pos
+        if len(ind) + len(b) > linelen and b.strip():
+            # (a body that is only whitespace cannot be aligned with the logical line unambiguously: not judged)
+            if starts is not None and j < len(starts):
+                start = starts[j]
+            else:
+                start = src.find(b, pos) if b else pos
             inside = [a for a in allowed if start < a < start + len(b)]
             if inside:
                 return "P4 line %d too long (%d > %d) although it could break at %s: %r" % (
